@@ -182,6 +182,49 @@ fn cmd_fmt() {
     println!("{{\"cmd\":\"fmt\",\"evaluated\":768,\"disagreements\":{}}}", bad);
 }
 
+// C29 Eb: every operation history up to `len` over keys 0..3 and capacities 0..=4, LruCache vs an abstract LRU model
+fn cmd_lru(len: usize) {
+    use oxidize_pdf::memory::LruCache;
+    #[derive(Clone, Copy)] enum Op { Get(u8), Put(u8) }
+    let ops: Vec<Op> = (0..4u8).flat_map(|k| [Op::Get(k), Op::Put(k)]).collect();
+    let mut evaluated = 0u64; let mut bad: Vec<String> = vec![];
+    let mut idx = vec![0usize; len];
+    for cap in 0..=4usize {
+        for l in 0..=len {
+            let total = ops.len().pow(l as u32);
+            for n in 0..total {
+                let mut m = n; for i in 0..l { idx[i] = m % ops.len(); m /= ops.len(); }
+                evaluated += 1;
+                let mut real: LruCache<u8, u32> = LruCache::new(cap);
+                let mut model: Vec<(u8, u32)> = vec![]; // front = most recently used
+                let mut stamp = 0u32; let mut ok = true; let mut trace = vec![];
+                for i in 0..l {
+                    match ops[idx[i]] {
+                        Op::Put(k) => {
+                            stamp += 1; real.put(k, stamp); trace.push(format!("put {k}"));
+                            if cap > 0 {
+                                if let Some(p) = model.iter().position(|e| e.0 == k) { model.remove(p); }
+                                else if model.len() >= cap { model.pop(); }
+                                model.insert(0, (k, stamp));
+                            }
+                        }
+                        Op::Get(k) => {
+                            trace.push(format!("get {k}"));
+                            let r = real.get(&k).copied();
+                            let e = model.iter().position(|e| e.0 == k).map(|p| { let x = model.remove(p); model.insert(0, x); x.1 });
+                            if r != e { ok = false; }
+                        }
+                    }
+                    if real.len() != model.len() || real.len() > cap { ok = false; }
+                    if !ok { break; }
+                }
+                if !ok && bad.len() < 5 { bad.push(format!("{{\"capacity\":{cap},\"history\":{:?}}}", trace)); }
+            }
+        }
+    }
+    println!("{{\"cmd\":\"lru\",\"bound\":\"all histories of length <= {len} over get/put on keys 0..4, capacities 0..=4\",\"evaluated\":{},\"disagreements\":[{}]}}", evaluated, bad.join(","));
+}
+
 fn main() {
     let args: Vec<String> = std::env::args().collect();
     panic::set_hook(Box::new(|_| {}));
@@ -191,6 +234,7 @@ fn main() {
         Some("a85hex") => cmd_a85hex(args.get(2).and_then(|s| s.parse().ok()).unwrap_or(5)),
         Some("a85hex-roundtrip") => cmd_a85hex_roundtrip(args.get(2).and_then(|s| s.parse().ok()).unwrap_or(4)),
         Some("fmt") => cmd_fmt(),
+        Some("lru") => cmd_lru(args.get(2).and_then(|s| s.parse().ok()).unwrap_or(6)),
         Some("decode") => {
             // decode <FilterName> <hex bytes> [max]: run the real decoder on one input
             let filter = args[2].clone();
